@@ -170,7 +170,9 @@ func c15Ops() []c15Op {
 	}
 	// a script loaded by one operation, held by the host, and run by a later operation: whatever was
 	// parsed, loaded or run in between, it still is the script its text says
-	escSrc := "add_key(e1, \"a\\tb\")\nadd_key(e2, \"q\\\"r\\\\s\\x41\")\n`k y` = 'v\\u00e9'\nadd_key(e3, `k y`)\nif _ == \"hello\\x2042\" { add_key(eq, true) }\nreplace(message, \"h\\x65llo\", \"J\\x41\")\nadd_key(m, {\"k\\n\": [1.5, \"\\\\\"]})\n"
+	escSrc := "add_key(e1, \"a\\tb\")\nadd_key(e2, \"q\\\"r\\\\s\\x41\")\n`k y` = 'v\\u00e9'\nadd_key(e3, `k y`)\nif _ == \"hello\\x2042\" { add_key(eq, true) }\nreplace(message, \"h\\x65llo\", \"J\\x41\")\nadd_key(m, {\"k\\n\": [1.5, \"\\\\\"]})\n" +
+		// ... and one construct of every other kind (whatever a later parse does to storage this tree lives in shows in the run)
+		"if f1 == 8 { add_key(br, 1) } elif f1 == 7 { add_key(br, 2) } elif f1 == 7 { add_key(br, 4) } else { add_key(br, 3) }\nfor ci = 0; ci < 2; ci = ci + 1 { add_key(cnt, ci) }\nfor cw in [\"p\", \"q\"] { add_key(last, cw) }\nadd_key(sl, message[1:5:2])\nadd_key(neg, -f1 + 2 * 3)\n"
 	keepLoad := c15Op{Name: "keepload(esc.p)", Do: func(env *c15Env) string {
 		ok, errs := drv.Load(map[string]string{"esc.p": escSrc})
 		if e, bad := errs["esc.p"]; bad {
